@@ -237,6 +237,50 @@ def check(ctx):
         else:
             ctx.holds("C19-R1", fn, rel, q, "%d mutations, %d schema raises" % (len(muts), sum(1 for r in raises if r[2])),
                       "every schema-rejecting raise precedes every persistent mutation")
+        # the first-write initialisation fixes the schema of the file (atom count, presence of time / cell) from *this* call's arguments:
+        # a refusal that looks at the arguments only must come before it, or a refused first write decides the layout of the file
+        # (the PDB header carries no schema - only the REMARK and CRYST1 text of the first call - and its writer checks topology against
+        #  positions afterwards; that is an invalid call rather than a ragged one and is left out of this clause)
+        init_sites = {"h5": "_initialize_headers", "nc": "_initialize_headers", "dcd": "_initialize_write", "dtr": "_initialize_write", "lh5": "_initialize_headers"}
+        if key in init_sites:
+            inits = [(n, c) for n in cfg.nodes() for e in cfg.own_exprs(n) for c in ast.walk(e) if isinstance(c, ast.Call) and call_name(c) == "self." + init_sites[key]]
+            late = []
+            for (rn, rst, schema, en) in raises:
+                if not schema:
+                    continue
+                tests, handlers = _governing(mod, rst, fn)
+                uses_state = any(isinstance(a, ast.Attribute) and isinstance(a.value, ast.Name) and a.value.id == "self" for t in tests for a in ast.walk(t))
+                if not uses_state:
+                    # through locals: `missing = ... self.<state> ...`
+                    for t in tests:
+                        if any(d.startswith("self.") or ".self." in d for d in deps(t, rn, defs)):
+                            uses_state = True
+                if not uses_state:
+                    # through control dependence: `missing = "time"` assigned under a test of the file's state
+                    for t in tests:
+                        for nm in [x.id for x in ast.walk(t) if isinstance(x, ast.Name)]:
+                            for df in defs.reaching(rn, nm):
+                                if df.stmt is not None:
+                                    tt, _ = _governing(mod, df.stmt, fn)
+                                    if any(isinstance(a, ast.Attribute) and isinstance(a.value, ast.Name) and a.value.id == "self" for x in tt for a in ast.walk(x)):
+                                        uses_state = True
+                in_try = False
+                x_ = rst
+                while x_ in mod.parents and x_ is not fn:
+                    p_ = mod.parents[x_]
+                    if isinstance(p_, ast.Try) and x_ in p_.body:
+                        in_try = True       # raised after probing the file inside the try (e.g. `self._get_node(...)` then raise)
+                    x_ = p_
+                if uses_state or handlers or in_try:
+                    continue
+                for (inn, ic) in inits:
+                    if rn in cfg.reachable(inn) and rn != inn:
+                        late.append((rst, ic, tests))
+                        break
+            if inits:
+                ctx.decide(not late, "C19-R1", late[0][0] if late else fn, rel, q, "refusals that depend on the arguments alone precede %s (%d initialisation site%s)" % (init_sites[key], len(inits), "" if len(inits) == 1 else "s"), "",
+                           "`%s` is tested after the first-write initialisation at line %d: when the refused call is the first one, the headers (atom count, presence of time / cell) are created from the refused "
+                           "arguments and every later valid write is measured against them" % (src(late[0][2][0])[:90] if late and late[0][2] else "", late[0][1].lineno if late else 0))
 
         # ---- R4 counters after success ----------------------------------------------------------
         pos = F.CLASSES[key][2]
@@ -296,6 +340,7 @@ def _r2(ctx):
         q = cls + ".write"
         ps = [p for p in params(fn) if p != "self"]
         atom_chk = None
+        atom_own = False
         cell_chk = None
         cfg = CFG(fn)
         defs = Defs(cfg)
@@ -309,12 +354,35 @@ def _r2(ctx):
                     for t in tests:
                         s += " && " + " ".join(sorted(deps(t, nd, defs)))
                 if ("n_atoms" in s) and ("shape[1]" in s or "n_atoms" in s.replace("self.n_atoms", "").replace("self._n_atoms", "")):
-                    atom_chk = n
+                    # prefer the raise that sits in the *body* of the test on the atom count (not one in a later else of the same chain)
+                    x_, own = n, False
+                    while x_ in mod.parents and x_ is not fn:
+                        p_ = mod.parents[x_]
+                        if isinstance(p_, ast.If):
+                            own = x_ in p_.body and "n_atoms" in src(p_.test)
+                            break
+                        x_ = p_
+                    if own or atom_chk is None:
+                        atom_chk = n
+                        atom_own = own
                 cs = CELL_STATE.get(key)
                 state_words = (cs, "self._handle", "_get_node") if cs else ()
                 if cs and (any(w in s for w in state_words) or any(h in ("NoSuchNodeError", "KeyError", "AssertionError") for h in handlers)) and \
                         (" is None" in s or " is not None" in s or handlers or "missing" in s):
                     cell_chk = n
+        if need_atoms and atom_chk is not None and CELL_STATE.get(key):
+            # the atom-count refusal must not hang in an `elif` behind the tests of the cell-presence state: once that state is True or False
+            # one of those branches is always taken and the atom count is never looked at
+            cs_ = CELL_STATE[key]
+            behind = []
+            x_ = atom_chk
+            while x_ in mod.parents and x_ is not fn:
+                p_ = mod.parents[x_]
+                if isinstance(p_, ast.If) and x_ in p_.orelse and cs_ in src(p_.test) and " is None" not in src(p_.test) and "is not None" not in src(p_.test):
+                    behind.append(src(p_.test))
+                x_ = p_
+            ctx.decide(not behind, "C19-R2", atom_chk, rel, q, "the atom-count refusal is reached whatever the cell-presence state is", "",
+                       "the atom-count check is an `elif` after `%s`: after the first write that state is always True or False, so one of the earlier branches is taken and a block with another atom count is appended" % "`, `".join(behind))
         if need_atoms:
             ctx.decide(atom_chk is not None, "C19-R2", atom_chk or fn, rel, q, "atom count vs first write",
                        "a later write with a different atom count raises", "no write-time check compares the atom count with the first write: "
